@@ -35,6 +35,7 @@ func init() {
 			{ID: "R08g", Floor: 6, Doc: "a struct that holds a mutex by value is never copied: no value receiver, by-value parameter, or whole-struct load of such a type in the repository (a copy has its own mutex: the method excludes nobody, or inherits a locked mutex and never returns)", Run: ruleR08g},
 			{ID: "R08h", Floor: 1, Doc: "NewOffsetReadSeeker hands out a fresh cursor on every call: concurrent readers (Roots, AllKeysChan, index generation) each rely on a private position over the shared backing", Run: ruleR08h},
 			{ID: "R08d", Floor: 8, Doc: "guard-table completeness: every field of the concurrent types that is stored outside the constructor phase is in the guard table", Run: ruleR08d},
+			{ID: "R08i", Floor: 1, Doc: "the lazily created writer is remembered only when its construction succeeded (a failed first initialisation is retried, not turned into a nil writer for the next caller) (= R16f)", Run: ruleR16f},
 		},
 	})
 }
